@@ -11,16 +11,19 @@
      func_wf f  - the parameter list has the declared arity; a parameter's Type_Info and form belong together
      body_ok E  - the known caveat: callee bodies never themselves throw bad_boxed_cast / arity_error / guard_error
                   (dispatch cannot tell those from "did not match") *)
-(* Rules the oracle (DispatchSpecRun.spec_d, independent of gen/) applies in addition and that are NOT theorems here:
-     - "an exactly matching overload exists => one is entered" (the strong half of C06_exact_preferred);
+(* Rules the oracle (DispatchSpecRun.spec_d, independent of gen/) applies, and how they relate to the theorems here:
+     - "an exactly matching overload exists => one is entered" (the strong half of C06_exact_preferred): oracle only;
      - ERRS: a call fails only with dispatch_error / bad_boxed_cast / arity_error / guard_error (eval_error from a script),
-       std::runtime_error for a null object, or the entered body's own exception - no internal exception escapes;
+       std::runtime_error for a null object, or the entered body's own exception - no internal exception escapes:
+       C06_no_internal_exception (for the internal detail::exception::bad_any_cast);
      - PREF: within an overload set whose members all have the same parameter types up to const and form, an exactly matching
-       overload with less const parameters is entered first (function_less_than's const rule; across types the comparator is
-       not a strict weak order and nothing is claimed);
-     - two-step histories: after a std::shared_ptr<T>& callee re-seated a variable, the case is judged for the object it holds now. *)
+       overload with less const parameters is entered first: C06_nonconst_twin_first for pairs f(T&) / f(const T&) in both
+       registration orders, whatever the return types (C06_order_ignores_return_types); across types the comparator is not a
+       strict weak order and nothing is claimed;
+     - two-step histories: after a std::shared_ptr<T>& callee re-seated a variable, the case is judged for the object it holds
+       now: C06_reseat_history (any number of re-seats). *)
 From Coq Require Import ZArith List Bool.
-From ChaiV Require Import DispatchDefs DispatchProofs DispatchTheorems.
+From ChaiV Require Import DispatchDefs DispatchProofs DispatchMore DispatchTheorems DispatchTheorems2.
 From ChaiV.Gen Require Import G_CastRules.
 Import ListNotations.
 
@@ -44,15 +47,15 @@ Print Assumptions C06_sound.
 Theorem C06_sound_registered :
   forall E fs args i rs,
     env_ok E = true -> (forall f, In f fs -> func_wf f = true) -> body_ok E ->
-    In (Enter i rs) (o_trace (call_named gen_rules E (register_all fs) args)) ->
+    In (Enter i rs) (o_trace (call_named gen_rules E (register_all gen_rules fs) args)) ->
     exists f, In f fs /\ f_id f = i /\ entry_ok E f args rs = true.
 Proof.
   intros E fs args i rs HE Hwf Hb Hin.
-  assert (Hwf' : forall f, In f (register_all fs) -> func_wf f = true) by (intros f Hf; apply Hwf; apply register_all_in; exact Hf).
-  destruct (final_ok_sound E (register_all fs) args _ i rs
-              (call_named_final gen_rules E (register_all fs) args gen_rules_ok HE Hwf' (body_ok_retries _ _ gen_rules_ok Hb)) Hin)
+  assert (Hwf' : forall f, In f (register_all gen_rules fs) -> func_wf f = true) by (intros f Hf; apply Hwf; apply (register_all_in gen_rules); exact Hf).
+  destruct (final_ok_sound E (register_all gen_rules fs) args _ i rs
+              (call_named_final gen_rules E (register_all gen_rules fs) args gen_rules_ok HE Hwf' (body_ok_retries _ _ gen_rules_ok Hb)) Hin)
     as (f & Hf & Hi & Hok).
-  exists f. split; [apply register_all_in; exact Hf | auto].
+  exists f. split; [apply (register_all_in gen_rules); exact Hf | auto].
 Qed.
 Print Assumptions C06_sound_registered.
 
@@ -61,20 +64,20 @@ Print Assumptions C06_sound_registered.
 Theorem C06_single_entry :
   forall E fs args,
     env_ok E = true -> (forall f, In f fs -> func_wf f = true) -> body_ok E ->
-    let o := call_named gen_rules E (register_all fs) args in
+    let o := call_named gen_rules E (register_all gen_rules fs) args in
     length (o_trace o) <= 1
     /\ (forall e, o_res o = Some e ->
           o_trace o = [] \/ exists f rs, In f fs /\ o_trace o = [Enter (f_id f) rs] /\ e_body E (f_id f) = Some e)
     /\ (o_res o = None -> exists f rs, In f fs /\ o_trace o = [Enter (f_id f) rs]).
 Proof.
   intros E fs args HE Hwf Hb o.
-  assert (Hwf' : forall f, In f (register_all fs) -> func_wf f = true) by (intros f Hf; apply Hwf; apply register_all_in; exact Hf).
-  pose proof (call_named_final gen_rules E (register_all fs) args gen_rules_ok HE Hwf' (body_ok_retries _ _ gen_rules_ok Hb)) as Hfin.
+  assert (Hwf' : forall f, In f (register_all gen_rules fs) -> func_wf f = true) by (intros f Hf; apply Hwf; apply (register_all_in gen_rules); exact Hf).
+  pose proof (call_named_final gen_rules E (register_all gen_rules fs) args gen_rules_ok HE Hwf' (body_ok_retries _ _ gen_rules_ok Hb)) as Hfin.
   fold o in Hfin. split; [eapply final_ok_single_entry; eauto|]. split.
   - intros e He. destruct (final_ok_error_none _ _ _ _ e Hfin He) as [H|(f & rs & Hf & Ht & Hbd)]; [left; auto|].
-    right. exists f, rs. repeat split; auto. apply register_all_in; exact Hf.
+    right. exists f, rs. repeat split; auto. apply (register_all_in gen_rules); exact Hf.
   - intros Hn. destruct Hfin as [[_ [e He]]|(f & rs & Hf & Ht & _)]; [congruence|].
-    exists f, rs. split; [apply register_all_in; exact Hf | exact Ht].
+    exists f, rs. split; [apply (register_all_in gen_rules); exact Hf | exact Ht].
 Qed.
 Print Assumptions C06_single_entry.
 
@@ -100,11 +103,11 @@ Print Assumptions C06_exact_preferred.
 Theorem C06_arity_none :
   forall E fs args,
     (forall f, In f fs -> (f_arity f <? 0)%Z = false /\ (f_arity f =? Z.of_nat (length args))%Z = false) ->
-    let o := call_named gen_rules E (register_all fs) args in
+    let o := call_named gen_rules E (register_all gen_rules fs) args in
     o_trace o = [] /\ (o_res o = Some EArity \/ o_res o = Some EDispatch).
 Proof.
   intros E fs args Hno. apply call_named_arity_none; [exact gen_rules_ok|].
-  intros f Hf. apply Hno. apply register_all_in. exact Hf.
+  intros f Hf. apply Hno. apply (register_all_in gen_rules). exact Hf.
 Qed.
 Print Assumptions C06_arity_none.
 
@@ -147,9 +150,82 @@ Print Assumptions C06_attr_null.
 
 (* registration keeps exactly the registered overloads, whatever the order of registration *)
 Theorem C06_registration :
-  forall fs f, In f (register_all fs) <-> In f fs.
-Proof. exact register_all_in. Qed.
+  forall fs f, In f (register_all gen_rules fs) <-> In f fs.
+Proof. exact (register_all_in gen_rules). Qed.
 Print Assumptions C06_registration.
+
+(* no internal exception (detail::exception::bad_any_cast) leaves a call or a boxed_cast: a call with no compatible overload,
+   or one whose registered conversion yields something the parameter form cannot take, ends in one of the declared errors *)
+Theorem C06_no_internal_exception :
+  forall E fs args wc p b,
+    (forall id, e_body E id <> Some EBadAny) ->
+    o_res (call_named gen_rules E (register_all gen_rules fs) args) <> Some EBadAny
+    /\ boxed_cast_gen gen_rules E wc p b <> CErr EBadAny.
+Proof.
+  intros E fs args wc p b Hb.
+  split; [apply call_named_no_internal; auto using gen_flow_ok | apply boxed_cast_no_internal; apply gen_flow_ok].
+Qed.
+Print Assumptions C06_no_internal_exception.
+
+(* registering the same overloads with any other return types (g changes nothing but f_ret) gives the same stored order and
+   every call does the same: the return type plays no part in overload resolution *)
+Theorem C06_order_ignores_return_types :
+  forall (g : func -> func) E fs args,
+    (forall f, ret_variant f (g f)) ->
+    map f_id (register_all gen_rules (map g fs)) = map f_id (register_all gen_rules fs)
+    /\ call_named gen_rules E (register_all gen_rules (map g fs)) args = call_named gen_rules E (register_all gen_rules fs) args.
+Proof.
+  intros g E fs args Hg. split.
+  - apply registered_order_ret_irrelevant; auto using gen_order_ok.
+  - apply registered_call_ret_irrelevant; auto using gen_order_ok.
+Qed.
+Print Assumptions C06_order_ignores_return_types.
+
+(* overloads f(T&) / f(const T&) (any return types), registered in either order: an argument that f(T&) accepts as it is
+   (a mutable T) enters f(T&) *)
+Theorem C06_nonconst_twin_first :
+  forall E l r args rs,
+    twins l r -> func_wf l = true -> func_wf r = true -> body_ok E ->
+    bare_exact l args = true -> call_one gen_rules E l args = enter E l rs ->
+    call_named gen_rules E (register_all gen_rules [l; r]) args = mkout [Enter (f_id l) rs] (e_body E (f_id l))
+    /\ call_named gen_rules E (register_all gen_rules [r; l]) args = mkout [Enter (f_id l) rs] (e_body E (f_id l)).
+Proof.
+  intros E l r args rs Ht Hl Hr Hb Hbe Hc.
+  apply twins_nonconst_first; auto using gen_rules_ok, gen_order_ok.
+  intros id e He. apply (body_ok_retries gen_rules E gen_rules_ok Hb id e He).
+Qed.
+Print Assumptions C06_nonconst_twin_first.
+
+(* a C++ function is never entered with a const script value bound to a parameter form that permits mutation (T&, T*,
+   shared_ptr<T>, reference_wrapper<T>, T&&...): what such a parameter receives for a const argument is another object
+   (its arithmetic or user conversion) *)
+Theorem C06_const_never_mutable :
+  forall E fs args i rs,
+    env_ok E = true -> (forall f, In f fs -> func_wf f = true) -> body_ok E ->
+    In (Enter i rs) (o_trace (call_named gen_rules E (register_all gen_rules fs) args)) ->
+    exists f, In f fs /\ f_id f = i /\
+      (f_kind f = KNative -> forall j p a r,
+         nth_error (f_params f) j = Some p -> nth_error args j = Some a -> nth_error rs j = Some r ->
+         form_mutable (p_form p) = true -> b_const a = true -> r_id r <> b_id a).
+Proof.
+  intros E fs args i rs HE Hwf Hb Hin.
+  destruct (C06_sound_registered E fs args i rs HE Hwf Hb Hin) as (f & Hf & Hi & Hok).
+  exists f. repeat split; auto. intros Hk j p a r Hp Ha Hr Hm Hc.
+  eapply entry_const_not_mutable; eauto.
+Qed.
+Print Assumptions C06_const_never_mutable.
+
+(* histories: a script variable holding [b] is passed any number of times to C++ functions taking std::shared_ptr<T>& that
+   re-seat it (to the objects in [h]); whatever boxed_cast then hands to C++ - as const T&, const T*, T, T&, shared_ptr<T>... -
+   is a rendering of the object the variable holds now (the last one of [h]), its type and constness unchanged *)
+Theorem C06_reseat_history :
+  forall E wc p b h v r,
+    env_ok E = true -> param_wf p = true ->
+    history gen_rules (vbox_of b) h = inl v -> boxed_cast_v gen_rules E wc p v = COk r ->
+    recv_ok E p (v_box v) r = true /\ place_of (v_box v) = last_place h (place_of b)
+    /\ b_ty (v_box v) = b_ty b /\ b_const (v_box v) = b_const b.
+Proof. intros. eapply history_cast_sound; eauto using gen_rules_ok, gen_sentinel_ok. Qed.
+Print Assumptions C06_reseat_history.
 
 (* ---- the hypotheses are satisfiable by non-trivial concrete states, and the conclusions are witnessed ---- *)
 Definition ex_E : env :=
@@ -158,23 +234,24 @@ Definition ex_E : env :=
         (fun uid p => match p with PObj _ tag => Some (PZ (tag + 100)) | _ => None end)
         (fun _ _ => true) (fun id => if Nat.eqb id 3 then Some EBody else None) true.
 Definition ex_ti (bare : nat) (c ar : bool) : tinfo := mkti bare c ar false true bare.
-Definition ex_f_ref : func := mkfunc 1 1 [mkparam (ex_ti 17 false false) FRef 0] KNative None.       (* void(Base&) *)
-Definition ex_f_cref : func := mkfunc 2 1 [mkparam (ex_ti 17 true false) FCRef 0] KNative None.     (* void(const Base&) *)
-Definition ex_f_long : func := mkfunc 4 1 [mkparam (ex_ti 12 false true) FVal 0] KNative None.      (* void(long) *)
-Definition ex_f_two : func := mkfunc 5 2 [mkparam (ex_ti 10 false true) FVal 0; mkparam (ex_ti 10 false true) FVal 0] KNative None.
+Definition ex_void : tinfo := mkti 98 false false false true 98.
+Definition ex_f_ref : func := mkfunc 1 1 [mkparam (ex_ti 17 false false) FRef 0] KNative None ex_void.       (* void(Base&) *)
+Definition ex_f_cref : func := mkfunc 2 1 [mkparam (ex_ti 17 true false) FCRef 0] KNative None ex_void.     (* void(const Base&) *)
+Definition ex_f_long : func := mkfunc 4 1 [mkparam (ex_ti 12 false true) FVal 0] KNative None ex_void.      (* void(long) *)
+Definition ex_f_two : func := mkfunc 5 2 [mkparam (ex_ti 10 false true) FVal 0; mkparam (ex_ti 10 false true) FVal 0] KNative None ex_void.
 Definition ex_cderived : box := mkbox 18 true false false SRef false (IdObj 0) (PObj 18 7) false.     (* a const Derived& *)
 Definition ex_int : box := mkbox 10 false true false SShared false (IdObj 0) (PZ 5) false.
 
 Example C06_hypotheses_satisfiable :
   env_ok ex_E = true /\ func_wf ex_f_ref = true /\ func_wf ex_f_cref = true /\ func_wf ex_f_long = true /\ body_ok ex_E
   (* a const Derived passed to {f(Base&), f(const Base&)}: only the const overload is entered, with the same object *)
-  /\ call_named gen_rules ex_E (register_all [ex_f_cref; ex_f_ref]) [ex_cderived]
+  /\ call_named gen_rules ex_E (register_all gen_rules [ex_f_cref; ex_f_ref]) [ex_cderived]
      = mkout [Enter 2 [mkrecv 17 (IdObj 0) (PObj 18 7) AcConst false false]] None
   (* an int passed to f(long): entered through the arithmetic conversion, with a fresh value *)
-  /\ call_named gen_rules ex_E (register_all [ex_f_long]) [ex_int]
+  /\ call_named gen_rules ex_E (register_all gen_rules [ex_f_long]) [ex_int]
      = mkout [Enter 4 [mkrecv 12 (IdArith (IdObj 0)) (PZ 5) AcCopy false false]] None
   (* one argument for a two-parameter function: arity_error, nothing entered *)
-  /\ call_named gen_rules ex_E (register_all [ex_f_two]) [ex_int] = mkout [] (Some EArity)
+  /\ call_named gen_rules ex_E (register_all gen_rules [ex_f_two]) [ex_int] = mkout [] (Some EArity)
   (* the const Derived cannot be handed out as a Base& *)
   /\ boxed_cast gen_rules ex_E (mkparam (ex_ti 17 false false) FRef 0) ex_cderived = CErr EBadCast
   /\ bare_exact ex_f_long [ex_int] = false /\ bare_exact ex_f_two [ex_int; ex_int] = true.
@@ -182,4 +259,56 @@ Proof.
   split; [vm_compute; reflexivity|]. split; [vm_compute; reflexivity|]. split; [vm_compute; reflexivity|]. split; [vm_compute; reflexivity|].
   split; [intros id; cbn; destruct (Nat.eqb id 3); repeat split; discriminate|].
   repeat split; vm_compute; reflexivity.
+Qed.
+
+(* twins with different return types; a variable re-seated twice; a rule set whose Sentinel forgets m_const_data_ptr *)
+Definition ex_f_ref_int : func := mkfunc 90 1 [mkparam (ex_ti 17 false false) FRef 0] KNative None (ex_ti 10 false true).       (* int(Base&) *)
+Definition ex_f_cref_str : func := mkfunc 91 1 [mkparam (ex_ti 17 true false) FCRef 0] KNative None (mkti 16 false false false true 3).   (* std::string(const Base&); typeid(std::string).before(typeid(int)) *)
+Definition ex_base_sp : box := mkbox 17 false false false SShared false (IdObj 0) (PObj 17 3) false.
+Definition ex_hist : list (ident * pay) := [(IdObj 100, PObj 17 53); (IdObj 101, PObj 17 103)].
+Definition stale_rules : rules :=
+  mkrules (r_verify gen_rules) (r_cast gen_rules) (r_null_when_const gen_rules) (r_direct_when gen_rules) (r_direct_catch gen_rules) (r_up_catch gen_rules)
+          (r_down_catch gen_rules) (r_arity_check gen_rules) (r_ctp gen_rules) (r_dispatch_retry gen_rules) (r_dwc_retry gen_rules) (r_attr_nullcheck gen_rules)
+          (r_dwc_only_converted gen_rules) (r_flt_start gen_rules) true false.
+Definition ret_first_rules : rules :=
+  mkrules (r_verify gen_rules) (r_cast gen_rules) (r_null_when_const gen_rules) (r_direct_when gen_rules) (r_direct_catch gen_rules) (r_up_catch gen_rules)
+          (r_down_catch gen_rules) (r_arity_check gen_rules) (r_ctp gen_rules) (r_dispatch_retry gen_rules) (r_dwc_retry gen_rules) (r_attr_nullcheck gen_rules)
+          (r_dwc_only_converted gen_rules) 0 true true.
+Definition narrow_rules : rules :=
+  mkrules (r_verify gen_rules) (r_cast gen_rules) (r_null_when_const gen_rules) (r_direct_when gen_rules) (r_direct_catch gen_rules) CatchBadCast
+          (r_down_catch gen_rules) (r_arity_check gen_rules) (r_ctp gen_rules) (r_dispatch_retry gen_rules) (r_dwc_retry gen_rules) (r_attr_nullcheck gen_rules)
+          (r_dwc_only_converted gen_rules) (r_flt_start gen_rules) true true.
+Definition ex_cderived_val : box := mkbox 18 true false false SShared false (IdObj 0) (PObj 18 3) false.   (* a const Derived the script owns *)
+
+Example C06_new_hypotheses_satisfiable :
+  twins ex_f_ref_int ex_f_cref_str /\ func_wf ex_f_ref_int = true /\ func_wf ex_f_cref_str = true
+  (* both registration orders store int(Base&) first and a mutable Base enters it *)
+  /\ map f_id (register_all gen_rules [ex_f_cref_str; ex_f_ref_int]) = [90; 91]
+  /\ call_named gen_rules ex_E (register_all gen_rules [ex_f_cref_str; ex_f_ref_int]) [ex_base_sp]
+     = mkout [Enter 90 [mkrecv 17 (IdObj 0) (PObj 17 3) AcMut false false]] None
+  (* the hypotheses of the ordering theorems are needed: a comparator that starts at the return-type slot stores
+     std::string(const Base&) first (std::string sorts before int here) and a mutable Base enters the const overload *)
+  /\ map f_id (register_all ret_first_rules [ex_f_ref_int; ex_f_cref_str]) = [91; 90]
+  /\ o_trace (call_named ret_first_rules ex_E (register_all ret_first_rules [ex_f_ref_int; ex_f_cref_str]) [ex_base_sp])
+     = [Enter 91 [mkrecv 17 (IdObj 0) (PObj 17 3) AcConst false false]]
+  (* a history of two re-seats: every form then receives the last object *)
+  /\ (exists v, history gen_rules (vbox_of ex_base_sp) ex_hist = inl v /\ coherent v = true
+       /\ boxed_cast_v gen_rules ex_E true (mkparam (ex_ti 17 true false) FCRef 0) v = COk (mkrecv 17 (IdObj 101) (PObj 17 103) AcConst false false)
+       /\ boxed_cast_v gen_rules ex_E true (mkparam (ex_ti 17 false false) FRef 0) v = COk (mkrecv 17 (IdObj 101) (PObj 17 103) AcMut false false))
+  (* ... and sentinel_ok is needed: if ~Sentinel forgets m_const_data_ptr, const T& receives the object held before *)
+  /\ (exists v, history stale_rules (vbox_of ex_base_sp) ex_hist = inl v /\ coherent v = false
+       /\ boxed_cast_v stale_rules ex_E true (mkparam (ex_ti 17 true false) FCRef 0) v = COk (mkrecv 17 (IdObj 0) (PObj 17 3) AcConst false false)
+       /\ boxed_cast_v stale_rules ex_E true (mkparam (ex_ti 17 false false) FRef 0) v = COk (mkrecv 17 (IdObj 101) (PObj 17 103) AcMut false false))
+  (* a const Derived passed to {f(Base&), f(const Base&)} and to f(Base&) alone: the const overload / a clean dispatch error;
+     flow_ok is needed: with the up-conversion handler narrowed to bad_boxed_cast the internal exception escapes *)
+  /\ o_res (call_named gen_rules ex_E (register_all gen_rules [ex_f_ref]) [ex_cderived_val]) = Some EBadCast
+  /\ o_res (call_named narrow_rules ex_E (register_all narrow_rules [ex_f_ref; ex_f_cref]) [ex_cderived_val]) = Some EBadAny
+  /\ (forall id, e_body ex_E id <> Some EBadAny).
+Proof.
+  split.
+  { unfold twins. repeat split. exists (mkparam (ex_ti 17 false false) FRef 0), (mkparam (ex_ti 17 true false) FCRef 0). repeat split. }
+  repeat match goal with |- _ /\ _ => split end; try (vm_compute; reflexivity).
+  - eexists. split; [vm_compute; reflexivity|]. repeat split; vm_compute; reflexivity.
+  - eexists. split; [vm_compute; reflexivity|]. repeat split; vm_compute; reflexivity.
+  - intros id. cbn. destruct (Nat.eqb id 3); discriminate.
 Qed.
